@@ -275,8 +275,8 @@ func VerifPlanDump(expr string, namespaces map[string]string) (string, error) {
 	return b.String(), nil
 }
 
-// VerifHashKey returns the node identity hash used by union and ancestor de-duplication.
-func VerifHashKey(n NodeNavigator) uint64 { return getHashCode(n.Copy()) }
+// VerifNodeKey returns the node identity key used by union and ancestor de-duplication.
+func VerifNodeKey(n NodeNavigator) string { return getNodeKey(n.Copy()) }
 
 // VerifCache wraps a loadingCache for the harness.
 type VerifCache struct{ c *loadingCache }
@@ -323,11 +323,11 @@ func VerifFormatNumber(f float64) string { return asString(nil, f) }
 // evaluation was first found on another node than root (-1: never).
 func VerifSelectContext(expr *Expr, root NodeNavigator, max int) (moved int, n int) {
 	t := &NodeIterator{query: expr.q.Clone(), node: root.Copy()}
-	key := getHashCode(root.Copy())
+	key := getNodeKey(root.Copy())
 	moved = -1
 	for n < max {
 		x := t.query.Select(t)
-		if moved < 0 && getHashCode(t.node.Copy()) != key {
+		if moved < 0 && getNodeKey(t.node.Copy()) != key {
 			moved = n
 		}
 		if x == nil {
